@@ -323,6 +323,33 @@ func c02Judge(res *vlib.Result, t *c02Transcript, mk func() *stream.Stream, R st
 		delivered = append(delivered, m)
 	}
 	key := func(kind string) string { return fmt.Sprintf("C02/%s/%s/%s", kind, faultClass, R) }
+	beforeError := len(delivered)
+	// an application that reads on after the error (same stream, same API): whatever it is still
+	// handed must CONTINUE the sent sequence - a rejected injected frame may be followed by the
+	// genuine next message, but nothing may be skipped, repeated or altered
+	if rerr != nil && (R == "complete" || R == "frames" || R == "frames-end" || R == "typed") {
+		for i := 0; i < 4; i++ {
+			var m []byte
+			var err error
+			switch R {
+			case "complete":
+				m, err = rcv.ReceiveCompleteMessage(ctx)
+			case "typed":
+				m, err = message.NewMessageFromStream(rcv).GetRemainingBytes(ctx)
+			case "frames":
+				m, err = rcv.ReceiveFrame(ctx)
+			case "frames-end":
+				m, _, err = rcv.ReceiveFrameWithEnd(ctx)
+			}
+			if err != nil {
+				continue
+			}
+			if m == nil {
+				m = []byte{}
+			}
+			delivered = append(delivered, m)
+		}
+	}
 	// delivered must be a prefix of msgs
 	for i, d := range delivered {
 		if i >= len(exp) {
@@ -341,12 +368,12 @@ func c02Judge(res *vlib.Result, t *c02Transcript, mk func() *stream.Stream, R st
 		res.Outcome("finding-noerror")
 		return
 	}
-	if len(delivered) > k {
-		res.Violate(key("late-error"), "dir=%s: fault at wire offset %d first affects message %d but %d messages were delivered before the error (%v)", t.dir, pos, k, len(delivered), rerr)
+	if beforeError > k {
+		res.Violate(key("late-error"), "dir=%s: fault at wire offset %d first affects message %d but %d messages were delivered before the error (%v)", t.dir, pos, k, beforeError, rerr)
 		res.Outcome("finding-late")
 		return
 	}
-	res.Outcome(fmt.Sprintf("error-after-%d-of-%d", len(delivered), k))
+	res.Outcome(fmt.Sprintf("error-after-%d-of-%d", beforeError, k))
 }
 
 func trunc(b []byte) string {
